@@ -460,7 +460,8 @@ def catalogue_trace(out_path: str) -> int:
         except Exception as e:  # pylint: disable=broad-except
             failed.append([mname, type(e).__name__])     # import failures are C03's subject, not C09's
     events = rec.events
-    Path(out_path).write_text(json.dumps({"runs": idtrace.to_runs(events), "modules": len(mods), "failed": failed,
+    Path(out_path).write_text(json.dumps({"runs": idtrace.to_runs(events), "named": idtrace.clash_candidates(events),
+                                          "modules": len(mods), "failed": failed,
                                           "events": len(events)}))
     return 0
 
@@ -492,12 +493,15 @@ def selftest(run: Run, sc) -> None:
     """Binding of the trace specification: a stream in which SYM7 is handed out twice must be rejected at that
     run, a clean stream (with skipped ids: distinctness, not 'last + 1', is required) must be accepted."""
     probe = Run(PID, "selftest")
-    bad = {"tid": "planted-repeat", "runs": [{"b": "SYM", "lo": 1, "hi": 7}, {"b": "FUN", "lo": 1, "hi": 2}, {"b": "SYM", "lo": 7, "hi": 9}]}
+    bad = {"tid": "planted-repeat", "runs": [{"b": "SYM", "lo": 1, "hi": 7}, {"b": "FUN", "lo": 1, "hi": 2}, {"b": "SYM", "lo": 7, "hi": 9}],
+           "named": [{"b": "m", "id": 11}, {"b": "m1", "id": 1}]}
     good = {"tid": "skipping-ids", "runs": [{"b": "SYM", "lo": 1, "hi": 7}, {"b": "SYM", "lo": 20, "hi": 29}, {"b": "FUN", "lo": 5, "hi": 5}]}
     v = idtrace.validate(probe, sc, [bad, good], "self-test")
     if v.get("skipping-ids") is not None or v.get("planted-repeat") is None or v["planted-repeat"][0] != 3:
         raise RuntimeError(f"self-test of SymbolsTrace.tla failed: {v}")
-    run.coverage["selftest_trace_spec"] = "planted repeated id rejected at its run; stream with skipped ids accepted"
+    if not any(x["key"].startswith("next_id:alias:m11") for x in probe.violations):
+        raise RuntimeError("self-test of SymbolsTrace.tla failed: the planted name clash m11 = m1 + 1 was not reported")
+    run.coverage["selftest_trace_spec"] = "planted repeated id rejected at its run; planted name clash (m + 11 = m1 + 1) reported; stream with skipped ids accepted"
 
 
 def main() -> int:
@@ -523,7 +527,8 @@ def main() -> int:
         traces = []
         for pid, parts in sorted(streams.items()):
             events = [e for _seq, ev in sorted(parts, key=lambda x: x[0]) for e in ev]
-            traces.append({"tid": f"replay-worker-{pid}", "runs": idtrace.to_runs(events)})
+            traces.append({"tid": f"replay-worker-{pid}", "runs": idtrace.to_runs(events),
+                           "named": idtrace.clash_candidates(events)})
         try:
             _, err = cat.communicate(timeout=900)
         except subprocess.TimeoutExpired:
@@ -531,7 +536,7 @@ def main() -> int:
             err = "timeout"
         if cat.returncode == 0 and cat_out.exists():
             data = json.loads(cat_out.read_text())
-            traces.append({"tid": "catalogue-import", "runs": data["runs"]})
+            traces.append({"tid": "catalogue-import", "runs": data["runs"], "named": data.get("named", [])})
             run.coverage["catalogue_import_trace"] = {k: data[k] for k in ("modules", "events", "failed")}
         else:
             run.outside(f"catalogue import trace not recorded: {str(err)[-200:]}")
